@@ -159,6 +159,17 @@ class Expr:
                 if isinstance(op, ast.NotEq):
                     return f"(negb {e})"
                 bail(node, "enum order")
+            tr_ = self.ty(r)
+            if {t, tr_} <= {"Z", "optZ"} and "optZ" in (t, tr_) and isinstance(op, (ast.Eq, ast.NotEq)):
+                a = self.tr(l) if t == "optZ" else f"(Some {self.tr(l)})"
+                b = self.tr(r) if tr_ == "optZ" else f"(Some {self.tr(r)})"
+                e = f"(optZ_eqb {a} {b})"
+                return e if isinstance(op, ast.Eq) else f"(negb {e})"
+            if {t, tr_} <= {"str", "optstr"} and "optstr" in (t, tr_) and isinstance(op, (ast.Eq, ast.NotEq)):
+                a = self.tr(l) if t == "optstr" else f"(Some {self.tr(l)})"
+                b = self.tr(r) if tr_ == "optstr" else f"(Some {self.tr(r)})"
+                e = f"(optstr_eqb {a} {b})"
+                return e if isinstance(op, ast.Eq) else f"(negb {e})"
             if t == "str":
                 e = f"(str_eqb {self.tr(l)} {self.tr(r)})"
                 if isinstance(op, ast.Eq):
